@@ -241,9 +241,14 @@ class AbstractAst:
             try:
                 var_module = self.modules[var_type]
                 class_ = getattr(var_module, var_type)
-                var = class_()
-            except KeyError:
+            except (KeyError, AttributeError):
                 raise RTAMTException('The type {} does not seem to be imported.'.format(var_type))
+            if not isinstance(class_, type):
+                raise RTAMTException('{} is not a type.'.format(var_type))
+            try:
+                var = class_()
+            except TypeError as err:
+                raise RTAMTException('A variable of type {0} cannot be created: {1}'.format(var_type, err))
         return var
 
     def declare_var(self, var_name, var_type):
